@@ -93,6 +93,10 @@ theorem tern_table_exact : ternCheck T0 = true := by decide +kernel
     it (all 72 accumulator states × next branch); at the end the by-args result (with `promote`) and the join agree -/
 theorem nary_table_ok : naryCheck T0 = true := by decide +kernel
 
+/-- number literals by magnitude / notation agree iff not beyond HUGEINT; argument-less window functions agree; BETWEEN / IN
+    are BOOLEAN on both sides for every operand triple the engine accepts (complete: 13³ engine-class triples) -/
+theorem extra_table_ok : extraCheck T0 = true := by decide +kernel
+
 theorem tables_ok : TablesOk T0 = true := by
   simp [TablesOk, leaf_table_agrees, un_table_exact, bin_table_exact, tern_cond_irrelevant, tern_table_exact, nary_table_ok]
 
@@ -117,14 +121,15 @@ theorem depth1_exact_tern (k : TernK) (c a b : Sm) (ea eb : ETy) (hta : (a != .o
 
 /-- every listed family really occurs among the accepted depth-1 combinations (none is vacuous) -/
 theorem every_family_inhabited :
-    (Family.all.all fun f => (censusUn T0 ++ censusBin T0 ++ censusTern T0).contains (some f)) = true := by decide +kernel
+    (Family.all.all fun f =>
+      (censusUn T0 ++ censusBin T0 ++ censusTern T0 ++ NumLitK.all.map famNumLit).contains (some f)) = true := by decide +kernel
 
 /-! ### the property -/
 
 /-- for every well-formed expression over the columns of any schema (any depth, any n-ary width) what the annotator sees at
     the root and the engine's class describe the same kind of value -/
 theorem rel_sound (S : Schema) (e : TExpr) (h : WF T0 S e = true) : Rel (sm T0 S e) (eng T0 S e) = true :=
-  rel_of_tablesOk T0 S tables_ok e h
+  rel_of_tablesOk T0 S tables_ok extra_table_ok e h
 
 /-- **C16 (class agreement).** For every well-formed typed expression the class of the type `annotate_types` infers equals
     the class of the type DuckDB reports (under A-duck). -/
@@ -146,6 +151,59 @@ theorem int_never_narrower (S : Schema) (e : TExpr) (h : WF T0 S e = true) (hi :
   have := class_agrees S e h
   rw [hi] at this
   cases he : eng T0 S e <;> simp [he, eclassOf] at this ⊢
+
+/-! ### more of the annotator: literals, predicates, casts, aggregates, window functions, subqueries, array elements -/
+
+/-- `_annotate_literal` asks only `is_int`: 3000000000 and 99999999999999999999 are INT (DuckDB BIGINT / HUGEINT: same class),
+    1e10 is DOUBLE on both sides; a 40-digit integer is INT for sqlglot and DOUBLE for DuckDB -/
+theorem literal_typing :
+    annot T0 { table := [] } (.numLit .big) = .int ∧ eng T0 { table := [] } (.numLit .big) = .integer ∧
+    annot T0 { table := [] } (.numLit .huge) = .int ∧ eng T0 { table := [] } (.numLit .huge) = .hugeint ∧
+    annot T0 { table := [] } (.numLit .sci) = .double ∧ eng T0 { table := [] } (.numLit .sci) = .double ∧
+    annot T0 { table := [] } (.strLit .other) = .varchar ∧ annot T0 { table := [] } .decLit = .double := by decide +kernel
+
+theorem int_literal_overflow_disagrees_witness :
+    annot T0 { table := [] } (.numLit .overflow) = .int ∧ eng T0 { table := [] } (.numLit .overflow) = .double ∧
+    WF T0 { table := [] } (.numLit .overflow) = false := by decide +kernel
+
+/-- BETWEEN / IN / IS [NOT] DISTINCT FROM / ILIKE / IS NULL / comparisons / connectors: BOOLEAN whatever the operands
+    (complete finite decision over every operand summary) -/
+theorem predicates_are_boolean :
+    ((Pred3K.all.all fun k => leafReturns T0 (pred3Node k) == .boolean)
+     && ([BinK.eq, .neq, .lt, .le, .gt, .ge, .and, .or, .like, .ilike, .isDistinct].all fun k =>
+          Sm.all.all fun a => Sm.all.all fun b => annotBin T0 k a b == .boolean)
+     && (Sm.all.all fun a => annotUn T0 .isNull a == .boolean && annotUn T0 .not a == .boolean
+          && annotUn T0 .exists a == .boolean)) = true := by decide +kernel
+
+/-- TRY_CAST is typed exactly like CAST: the target type -/
+theorem try_cast_is_cast (to : Ty) (a : Sm) : annotUn T0 (.tryCast to) a = to ∧ annotUn T0 (.cast to) a = to := by
+  have h1 : T0.md .cast = .castTo := by decide +kernel
+  have h2 : T0.md .tryCast = .castTo := by decide +kernel
+  simp [annotUn, annotNode, h1, h2]
+
+/-- LAG / LEAD / FIRST_VALUE / LAST_VALUE `OVER ()`, ANY_VALUE, MIN, MAX and a scalar subquery keep their argument's type
+    (complete finite decision over the 17 types) -/
+theorem argument_typed_functions_keep_type (t : Ty) :
+    ([UnK.lag, .lead, .firstValue, .lastValue, .anyValue, .min, .max, .subq].all fun k => annotUn T0 k (.of t) == t) = true := by
+  have h : (Ty.all.all fun t => [UnK.lag, .lead, .firstValue, .lastValue, .anyValue, .min, .max, .subq].all fun k =>
+      annotUn T0 k (.of t) == t) = true := by decide +kernel
+  exact List.all_eq_true.mp h t (Ty.mem_all t)
+
+/-- aggregates and window functions at depth 1: every (function, typed operand, engine class) the engine accepts agrees
+    unless it is SUM(BOOLEAN), AVG of a temporal, or SUM over a NULL literal — a restriction of `un_table_exact` -/
+theorem aggregate_classes_exact :
+    ([UnK.count, .sum, .min, .max, .avg, .anyValue, .stddev, .variance, .boolAnd, .boolOr, .groupConcat, .approxDistinct,
+      .lag, .lead, .firstValue, .lastValue].all fun k => Sm.typed.all fun a => (compat a).all fun ea =>
+        engUn T0 k ea == .error
+        || (Rel (.of (annotUn T0 k a)) (engUn T0 k ea)
+            == !((k == .sum && (smClass a == .boolean || isNullTy a))
+                 || (k == .avg && (isTemporal a || smClass a == .interval))))) = true := by decide +kernel
+
+/-- `[a, b][1]`: the element type is the by-args coercion of the elements -/
+theorem array_element_type (a b : Sm) : annotBin T0 .arrayElem a b = byArgs T0 [a, b] false := by
+  have h1 : T0.md .array = .arrayOf [true, true] := by decide +kernel
+  have h2 : T0.md .bracket = .bracket := by decide +kernel
+  simp [annotBin, h1, h2, applyMask]
 
 /-! ### columns: the schema's type, end to end -/
 
@@ -256,6 +314,14 @@ example : annot T0 S0 sample1 = .double ∧ eng T0 S0 sample1 = .double := by de
 example : annot T0 S0 sample2 = .bigint ∧ eng T0 S0 sample2 = .hugeint := by decide +kernel
 example : annot T0 S0 sample4 = .double ∧ eng T0 S0 sample4 = .double := by decide +kernel
 example : annot T0 S0 sample5 = .text ∧ eng T0 S0 sample5 = .text := by decide +kernel
+
+/-- non-vacuity of the new forms: `(SELECT MAX(t.i) FROM t) BETWEEN TRY_CAST(t.v AS INT) AND 3000000000`,
+    `LAG(t.db) OVER () + ROW_NUMBER() OVER ()`, `[t.ti, t.bi][1] IS DISTINCT FROM STDDEV(t.i)` -/
+example :
+    WF T0 S0 (.pred3 .between (.un .subq (.un .max (c "i"))) (.un (.tryCast .int) (c "v")) (.numLit .big)) = true ∧
+    WF T0 S0 (.bin .add (.un .lag (c "db")) (.win0 .rowNumber)) = true ∧
+    annot T0 S0 (.bin .add (.un .lag (c "db")) (.win0 .rowNumber)) = .double ∧
+    WF T0 S0 (.bin .isDistinct (.bin .arrayElem (c "ti") (c "bi")) (.un .stddev (c "i"))) = true := by decide +kernel
 
 /-! ### what the unchanged tree gets wrong: one kernel-decided witness per family (each is a known-finding entry) -/
 
